@@ -131,6 +131,9 @@ func genIntRules(r *vh.Rand, k IKind) (*IntRules, string) {
 		return nil, ""
 	}
 	lo, hi := boundRange(k)
+	if genAST {
+		lo, _ = kindRange(k) // the AST can hold negative bounds
+	}
 	pick := func() int64 {
 		switch r.Intn(8) {
 		case 0:
@@ -212,6 +215,9 @@ func genFTy(r *vh.Rand, scope string, env EnumEnv) (FTy, string) {
 			t.Str = sr
 		}
 		t.List = genLPay(r, false, true)
+		if scope == "all" && r.Chance(12) {
+			t.SFormat = ptr(vh.Pick(r, []string{"uri", "date", "email", "uuid"}))
+		}
 		return t, ""
 	case 3:
 		t := FTy{Kind: TBytes}
@@ -307,7 +313,14 @@ func genFTy(r *vh.Rand, scope string, env EnumEnv) (FTy, string) {
 		return FTy{Kind: TObject, Flatten: r.Chance(40)}, ""
 	case 12:
 		if r.Bool() {
-			return FTy{Kind: TAny, List: genLPay(r, false, false)}, ""
+			t := FTy{Kind: TAny, List: genLPay(r, false, false)}
+			if r.Chance(40) {
+				t.AnyOD = r.Bool()
+				if r.Bool() {
+					t.AnyT = []string{"foo.v1.Bar"}
+				}
+			}
+			return t, ""
 		}
 		return FTy{Kind: TOneof, List: genLPay(r, false, false)}, ""
 	}
@@ -363,7 +376,7 @@ func genDesc(r *vh.Rand) string {
 func genProp(r *vh.Rand, name string, scope string, env EnumEnv) genDecl {
 	t, class := genFTy(r, scope, env)
 	p := Prop{Name: name, T: t, Desc: genDesc(r)}
-	if r.Chance(30) && t.Kind != TAny && t.Kind != TOneof {
+	if r.Chance(30) && t.Kind != TOneof {
 		p.PK = PArray
 		if r.Chance(70) {
 			ar := &ArrRules{Min: smallLen(r), Max: smallLen(r), Uniq: optBool(r)}
@@ -410,8 +423,47 @@ func genProp(r *vh.Rand, name string, scope string, env EnumEnv) genDecl {
 	if p.Opt && t.Kind == TKey && t.Entity != nil && t.Entity.Primary != nil && *t.Entity.Primary {
 		class = "compile-error" // primary key forces required
 	}
-	normalise(&p)
+	if genAST {
+		presentButEmpty(r, &p)
+	} else {
+		normalise(&p)
+	}
 	return genDecl{P: p, Class: class}
+}
+
+// the AST can hold rules messages that are present but empty
+func presentButEmpty(r *vh.Rand, p *Prop) {
+	if !r.Chance(25) {
+		return
+	}
+	switch p.T.Kind {
+	case TInt:
+		if p.T.Int == nil {
+			p.T.Int = &IntRules{}
+		}
+	case TStr:
+		if p.T.Str == nil {
+			p.T.Str = &StrRules{}
+		}
+	case TBytes:
+		if p.T.Len == nil {
+			p.T.Len = &LenRules{}
+		}
+	case TBool:
+		if !p.T.HasBool {
+			p.T.HasBool = true
+		}
+	case TEnum:
+		if p.T.Enum == nil {
+			p.T.Enum = &EnumRules{}
+		}
+	}
+	if p.PK == PArray && p.Arr == nil && r.Bool() {
+		p.Arr = &ArrRules{}
+	}
+	if p.PK == PMap && p.MapR == nil && r.Bool() {
+		p.MapR = &MapRules{}
+	}
 }
 
 // the j5s text cannot express a rules message that is present but empty
